@@ -148,7 +148,96 @@ def case_ip_verify(p):
     return out
 
 
+def case_ble_shutdown(p):
+    """add/remove pairing on BLE answered with an error while another task shuts the pairing down: every schedule of {complete the oldest
+    suspended GATT operation, complete the newest one, call shutdown()} (each GATT operation, the disconnect included, is suspended at a
+    gate).  If the controller READ the accessory's error reply, the call must not come back as done."""
+    from vt.env.blerig import BleRig
+
+    step = p["step"]
+    cell = dict(p, step=step)
+    items = _reply_items(cell)
+    out = []
+    nsched = 0
+    stack = [()]
+    seen_traces = set()
+    while stack:
+        prefix = stack.pop()
+        rig = BleRig(seed=p.get("seed", 0), gated=True)
+        rig.gate_disconnect = True
+        reply_read = {"n": 0}
+        try:
+            rig.acc.pairings_reply = items
+            orig_read = rig.acc.gatt_read
+
+            def gatt_read(iid, orig_read=orig_read):
+                data = orig_read(iid)
+                if iid == 24 and data:
+                    reply_read["n"] += 1
+                return data
+
+            rig.acc.gatt_read = gatt_read
+            coro = rig.pairing.add_pairing("new-ctl", "ab" * 32, "User") if step == "ble-add" else rig.pairing.remove_pairing("someone-else")
+            task = rig.loop.create_task(coro)
+            shut = None
+            trace = []
+            i = 0
+            for _ in range(400):
+                rig.loop.run_until_idle()
+                if task.done() and (shut is None or shut.done()):
+                    break
+                menu = []
+                live = [w for w in rig.waiting if not w[0].done()]
+                rig.waiting[:] = live
+                if live:
+                    menu.append("oldest")
+                    if len(live) > 1:
+                        menu.append("newest")
+                if shut is None:
+                    menu.append("shutdown")
+                if not menu:
+                    if not rig.loop.fire_next_timer():
+                        break
+                    continue
+                c = prefix[i] if i < len(prefix) else 0
+                if i >= len(prefix):
+                    for alt in range(1, len(menu)):
+                        # bound: shutdown() is one deviation, taking the newest operation first is another; at most two deviations in total
+                        if sum(1 for x in prefix if x) + 1 <= 2:
+                            stack.append(tuple(prefix) + (0,) * (i - len(prefix)) + (alt,))
+                c = min(c, len(menu) - 1)
+                i += 1
+                act = menu[c]
+                trace.append(act)
+                if act == "shutdown":
+                    shut = rig.loop.create_task(rig.pairing.shutdown())
+                elif act == "oldest":
+                    rig.release()
+                else:
+                    w = rig.waiting.pop()
+                    if not w[0].done():
+                        w[0].set_result(None)
+            nsched += 1
+            if not task.done():
+                task.cancel()
+                rig.loop.run_until_idle()
+                continue
+            if task.cancelled() or task.exception() is not None:
+                continue
+            judged = cell["err"] != "absent" or cell["state"] not in ("expected", "absent")
+            if judged and reply_read["n"] and tuple(trace) not in seen_traces:
+                seen_traces.add(tuple(trace))
+                out.append((f"{step}:error-reply-reported-as-done:shutdown-in-flight", {"step": step, "err": cell["err"], "state": cell["state"], "schedule": trace, "returned": repr(task.result())}))
+                break
+        finally:
+            rig.close()
+    p["_n"] = nsched
+    return out
+
+
 def case_mgmt_cell(p):
+    if p.get("shutdown"):
+        return case_ble_shutdown(p)
     return case_mgmt(dict(step=p["step"], seed=p.get("seed", 0), cells=[p]))
 
 
@@ -157,6 +246,11 @@ CASES = {"mgmt": case_mgmt_cell}
 
 def cells(tier):
     from vt.props.c04 import ERRORS, STATES
+
+    for step in ("ble-add", "ble-remove"):
+        for err in (["02", "07"] if tier == "quick" else [e for e in ERRORS if e != "absent"]):
+            if err in ERRORS:
+                yield ("mgmt", dict(step=step, err=err, state="expected", subset=[], errpos="last", style="ble", shutdown=True))
 
     for step in STEPS:
         for err in ERRORS:
